@@ -470,6 +470,20 @@ def run_mat(case, ctx):
     cls += more
     if N >= 3 and _has_ties(Cl, N):
         cls.append("ties_between_optima")
+    if (N + int(sum(abs(v) for v in case["upper"]) * 4)) % 3 == 0:
+        # error path first: degenerate requests that cannot be honoured (a 1x1 / 0x0 matrix; stop detection on a
+        # one-point track, which maximises) in either direction; what they raise is not judged
+        import numpy as np
+        which = (N + len(case["upper"])) % 4
+        if which == 0:
+            M.call(seg.optimalPartition, np.zeros((1, 1)), MAX, False)
+        elif which == 1:
+            M.call(seg.optimalPartition, np.zeros((0, 0)), MAX, False)
+        elif which == 2:
+            M.call(seg.optimalPartition, np.zeros((1, 1)), MIN, False)
+        else:
+            M.call(seg.findStopsGlobal, gen.make_track([(0.0, 0.0, 0.0)]), 5.0, 10.0, False, False)
+        ctx.count("degenerate_request_before_valid_ones")
     for label, call in (("MINIMIZE", lambda: seg.optimalPartition(C, MIN, False)),
                         ("MAXIMIZE", lambda: seg.optimalPartition(C, mode=MAX, verbose=False)),
                         ("default", lambda: seg.optimalPartition(C, verbose=False))):
@@ -513,12 +527,18 @@ def _make_cost(case, with_glob):
                 return 0.0
             d = track[i].position.distance2DTo(track[j].position)
             return w * d ** pw
+    log = {}
     if with_glob:
         def cost(track, i, j, g):
-            return base(track, i, j) + g
+            v = base(track, i, j) + g
+            log[(i, j)] = v
+            return v
     else:
         def cost(track, i, j):
-            return base(track, i, j)
+            v = base(track, i, j)
+            log[(i, j)] = v
+            return v
+    cost.log = log
     return cost
 
 
@@ -557,6 +577,31 @@ def _delegate_common(ctx, r, what, want_mode, sig, base_cls, case_w):
         w.update(case_w)
         return violated(w, sig, nt, cls), rec, nt, cls
     return None, rec, nt, cls
+
+
+def _costs_are_the_functions(rec, cost):
+    """The segment costs handed to optimalPartition must be the values the user's cost function returned for those
+    segments -- under one consistent index convention (tracklib asks cost(track, i, j-1) for cell (i, j)).  The
+    recorded-matrix monitor judges optimality for whatever matrix it is handed; this one judges the matrix."""
+    m = rec["matrix"]
+    N = m.shape[0] - 1
+    log = cost.log
+    cells = [(a, b) for a in range(N) for b in range(a + 1, N)]
+    if not cells or not log:
+        return None
+    tried = {}
+    for delta in (-1, 0, 1):
+        bad = None
+        for (a, b) in cells:
+            v = log.get((a, b + delta))
+            if v is None or not (float(m[a, b]) == float(v)):
+                bad = {"cell": [a, b], "matrix_value": float(m[a, b]), "cost_function_value": v}
+                break
+        if bad is None:
+            return None
+        tried[delta] = bad
+    return {"what": "the segment costs handed to optimalPartition are not the values the cost function returned "
+                    "(under any index convention j-1 / j / j+1)", "first_mismatch_per_convention": tried}
 
 
 def _same_costs(rec1, rec2):
@@ -611,6 +656,12 @@ def run_seg(case, ctx):
     v, rec, nt, cls = _delegate_common(ctx, r, name, want, sig, cls, case_w)
     if v is not None:
         return v
+    ctx.monitor("delegate.matrix_is_the_cost_function")
+    wcf = _costs_are_the_functions(rec, cost)
+    if wcf:
+        wcf.update(case_w)
+        wcf["recorded_call"] = _rec_witness(rec)
+        return violated(wcf, sig, nt, cls)
     if kind == "seg":
         ctx.monitor("delegate.returns_recorded_list")
         if list(r) != list(rec["result"]):
@@ -693,6 +744,11 @@ def run_simplify(case, ctx):
         w.update(case_w)
         return violated(w, sig, nt, cls)
     if smode in (7, 8):
+        ctx.monitor("delegate.matrix_is_the_cost_function")
+        wcf = _costs_are_the_functions(rec, f)
+        if wcf:
+            wcf.update(case_w)
+            return violated(wcf, sig, nt, cls)
         # call history: simplify again on the SAME track object with the SAME cost function, other direction
         smode2 = 15 - smode
         want2 = MAX if smode2 == 8 else MIN
